@@ -216,9 +216,17 @@ func (s *portCase) settle(t int, line string) bool {
 	}
 	if a.returned {
 		th.busy, th.site = false, 0
+		kind := "in"
+		if th.curOp == "open-out" {
+			kind = "out"
+		}
+		if strings.HasPrefix(th.curOp, "open") {
+			s.c.Hit("branch-port-open-" + kind + "-" + strings.Join(th.path, ".") + "-" + strings.ReplaceAll(a.ret, " ", "-"))
+		}
 		s.emit(line, "ret "+a.ret)
 	} else {
 		th.site = a.site
+		th.path = append(th.path, fmt.Sprint("y", a.site))
 		s.emit(line, fmt.Sprintf("y%d", a.site))
 	}
 	s.obs()
@@ -281,6 +289,12 @@ func (s *portCase) do(line string) bool {
 			return false
 		}
 		s.c.Hit("port-step-op-" + f[2])
+		th.curOp, th.path = f[2], nil
+		if f[2] == "open" {
+			if q, _ := strconv.Atoi(f[3]); q < len(s.ports) && s.ports[q].out != nil {
+				th.curOp = "open-out"
+			}
+		}
 		s.ctl.start(t, op)
 		return s.settle(t, line)
 	case "run":
